@@ -110,7 +110,11 @@ func hostFields(prefix string, h func(v *Val) *Host) []field {
 	fs := []field{f8(prefix+".Protocol", prefix, func(v *Val) *uint8 { return &h(v).Proto })}
 	for i := 0; i < 4; i++ {
 		i := i
-		fs = append(fs, f8(fmt.Sprintf("%s.Address[%d]", prefix, i), prefix, func(v *Val) *uint8 { return &h(v).Addr[i] }))
+		group := prefix
+		if i < 3 {
+			group = prefix + ".Address[0..2]" // paired with the port in the boundary product only
+		}
+		fs = append(fs, f8(fmt.Sprintf("%s.Address[%d]", prefix, i), group, func(v *Val) *uint8 { return &h(v).Addr[i] }))
 	}
 	return append(fs, f16(prefix+".Port", prefix, func(v *Val) *uint16 { return &h(v).Port }))
 }
@@ -513,6 +517,7 @@ func shapeSpaces(sh shape, thorough bool) []*space {
 	if thorough && len(sh.fields) > 1 {
 		s := &space{name: "pairwise-full-ranges/" + sh.name}
 		n8, n816 := 0, 0
+		var wide []string
 		for i, f := range sh.fields {
 			for _, g := range sh.fields[i+1:] {
 				switch {
@@ -523,12 +528,13 @@ func shapeSpaces(sh shape, thorough bool) []*space {
 					// 2^24 points per pair: one variant per pair, taken in rotation
 					one := variantDim(sh.variants[n816%len(sh.variants) : n816%len(sh.variants)+1])
 					n816++
+					wide = append(wide, f.name+" x "+g.name)
 					s.add(freshPairs, false, one, rangeDim(f, base), rangeDim(g, base))
 				}
 			}
 		}
-		s.note = fmt.Sprintf("variants [%s] x complete product of the full ranges of every pair of 8-bit fields (%d pairs, every variant) and of every 8-bit x 16-bit pair inside one structure (%d pairs; with several variants the k-th such pair is run on variant k mod %d), the other fields at the base value; 16-bit x 16-bit pairs are covered by the boundary product only",
-			variantNames(sh.variants), n8, n816, len(sh.variants))
+		s.note = fmt.Sprintf("variants [%s] x complete product of the full ranges of every pair of 8-bit fields (%d pairs, every variant) and of the 8-bit x 16-bit pairs inside one structure (%d pairs: %s; with several variants the k-th such pair is run on variant k mod %d), the other fields at the base value; Address[0..2] x Port and 16-bit x 16-bit pairs are covered by the boundary product only",
+			variantNames(sh.variants), n8, n816, strings.Join(wide, ", "), len(sh.variants))
 		if len(s.blocks) > 0 {
 			out = append(out, s)
 		}
